@@ -91,6 +91,7 @@ CORE_PAIRS = [
     ('sv_meta', 'sv_perf'), ('sv_perf', 'sv_meta'), ('sv_meta', 'sv_meta'), ('sv_race4', 'vs_ath'), ('vs_ath', 'vs_perf'),
     ('vs_perf', 'vs_ath'), ('vs_bad', 'vs_ath'), ('vs_ath', 'vs_ath'),
     ('vs_bad_ef', 'vs_bad_ef'), ('vs_bad', 'vs_bad_ef'), ('sv_bad_ef', 'sv_bad_ef'),
+    ('sv_meta', 'sv_bad_ef'),      # a new key arrives at a full cache while an expect_failure caller re-checks a cached failure
 ]
 # cross-group pairs (share nothing, or only the grader classes): a few, for completeness
 CROSS_PAIRS = [('as_age', 'aaf_m60h'), ('af_m100', 'af15_m100'), ('as_m100', 'hs_m100'), ('sh_slj', 'sv_meta'),
@@ -548,7 +549,7 @@ THEOREMS = [P + t for t in (
 # pairs that get every state variant in the quick tier too (one or two per group of shared state)
 QUICK_FULL = {('as_m100', 'as_flj'), ('hs_m100', 'hs_flj'), ('sh_slj', 'sh_100'), ('sh_slj_in', 'sh_slj_in'), ('sh_100_in', 'sh_100_in'), ('sh_shj', 'sh_shj'), ('af_m100', 'af_f5k'), ('wb_m5k', 'wb_f7k'),
               ('af15_m100', 'af15_f5k'), ('aaf_m60h', 'aaf_flj'), ('sv_meta', 'sv_perf'), ('vs_ath', 'vs_perf'), ('gr_m5k', 'af_f5k'),
-              ('vs_bad_ef', 'vs_bad_ef')}
+              ('vs_bad_ef', 'vs_bad_ef'), ('sv_meta', 'sv_bad_ef')}
 
 
 def run(ctx):
